@@ -49,8 +49,20 @@ ContentNS(kind) == CASE kind = "c2s" -> "client" [] kind = "ws" -> "client" [] k
 Context(kind) == IF kind = "ws" THEN "standalone" ELSE "header"
 
 Shapes == [name : Names, space : Spaces, id : AttrIn, from : AttrIn, nested : BOOLEAN, form : Forms]
-Inputs == {[name |-> h.name, space |-> h.space, id |-> h.id, from |-> h.from, nested |-> h.nested, form |-> h.form,
-            kind |-> s.kind, role |-> s.role, via |-> s.via, s2s |-> (s.kind = "s2s")] : h \in Shapes, s \in Sessions}
+(* How the start tokens of the payload's CHILD elements (depth 2 and 3: a namespaced child and its own child) carry  *)
+(* their namespace: "plain" - no namespaced child; "space" - in Name.Space only; "attr" - as an xmlns attribute only; *)
+(* "both" - Name.Space AND an xmlns attribute of the same value, as an xml.Decoder delivers them.  All three denote   *)
+(* the same element: the wire has to re-parse to it.  (Crossed with every shape and form on one session per kind.)   *)
+KidForms == {"space", "attr", "both"}
+KidSessions == {s \in Sessions : s.role = "init" /\ s.via = (IF s.kind = "ws" THEN "pkg" ELSE "custom")}
+Mk(h, s, k) == [name |-> h.name, space |-> h.space, id |-> h.id, from |-> h.from, nested |-> h.nested, form |-> h.form,
+                kind |-> s.kind, role |-> s.role, via |-> s.via, s2s |-> (s.kind = "s2s"), kids |-> k]
+SessKids == {<<s, "plain">> : s \in Sessions} \cup {<<s, k>> : s \in KidSessions, k \in KidForms}
+(* Not an input: a plain xml.Marshaler value ("encode", "encodeel") writes its tokens to an encoding/xml Encoder of the *)
+(* standard library, which prints Name.Space AND the xmlns attribute - such a value produces a malformed element by    *)
+(* itself, before the session sees anything.  Everywhere else the tokens go to the session's own token writer.        *)
+ValidIn(h, k) == ~(k = "both" /\ h.form \in {"encode", "encodeel"})
+Inputs == {Mk(hs[1], hs[2][1], hs[2][2]) : hs \in {y \in Shapes \X SessKids : ValidIn(y[1], y[2][2])}}
 
 IsStanza(x) == x.name # "other" /\ x.space \in {"", "stream"}
 
@@ -70,6 +82,7 @@ Complete(x) ==
     outer  |-> IF WithStart(x.form) THEN "given" ELSE "own",   \* which start element is outermost
     nested |-> IF x.nested THEN "untouched" ELSE "none",       \* a stanza-named child is not completed
     payload |-> "same",
+    kids    |-> IF x.kids = "plain" THEN "none" ELSE "same",   \* the namespaced children arrive well-formed, in their namespace
     ns      |-> ContentNS(x.kind),   \* what "stream" stands for on this session, whoever opened it and however it was made
     context |-> Context(x.kind),     \* what surrounds the element on the wire
     next   |-> "toplevel" ]   \* the element of the NEXT transmit call is a top-level element of its own, whole
@@ -92,7 +105,7 @@ ASSUME C05_CompleteIdempotent /\ C05_StanzaAlwaysIdentified /\ C05_ContentNSByKi
 ToSeqSet(S) == SetToSeq(S)
 Vec(x) == [in |-> x, exp |-> [count |-> 1, name |-> Complete(x).name, space |-> ToSeqSet(Complete(x).space),
                               id |-> ToSeqSet(Complete(x).id), from |-> ToSeqSet(Complete(x).from),
-                              outer |-> Complete(x).outer, nested |-> Complete(x).nested, payload |-> "same",
+                              outer |-> Complete(x).outer, nested |-> Complete(x).nested, payload |-> "same", kids |-> Complete(x).kids,
                               ns |-> Complete(x).ns, context |-> Complete(x).context, next |-> Complete(x).next]]
 ASSUME ndJsonSerialize("transmit_vectors.ndjson", SetToSeq({Vec(x) : x \in Inputs}))
 ASSUME PrintT(<<"vectors", Cardinality(Inputs)>>)
